@@ -368,20 +368,20 @@ def _run_case(sub: str, spec: dict, facts: dict) -> tuple:
     return failures, replies[0].get("info") or {}, consistent_error
 
 
-def _raise_first(sub: str, spec: dict, failures: list) -> None:
-    """ raises the first failure no signature explains, else the first one """
+def _pick_failure(sub: str, spec: dict, failures: list) -> Optional[tuple]:
+    """ the first failure no signature explains, else the one the spec prefers, else the first one """
     if not failures:
-        return
+        return None
     for clause, detail in failures:
         if not any(sig(sub, spec, clause, detail) for sig in SIGNATURES.values()):
-            raise Violation(clause, detail)
+            return clause, detail
     # everything is explained: report the failure the spec asks for (witnesses of known findings name theirs)
     preferred = SIGNATURES.get(spec.get("prefer", ""))
     if preferred is not None:
         for clause, detail in failures:
             if preferred(sub, spec, clause, detail):
-                raise Violation(clause, detail)
-    raise Violation(*failures[0])
+                return clause, detail
+    return failures[0]
 
 
 _SEEN_FAILING: dict = {}
@@ -391,16 +391,18 @@ def _finish(sub: str, spec: dict, facts: dict, nontrivial: bool, classes: list) 
     # one observed disagreement is a counterexample for good: a case that failed once in this process fails the
     # same way when Hypothesis replays it while shrinking (layout-dependent results need not differ every time)
     key = sub + runner.digest(spec)
-    if key in _SEEN_FAILING:
-        raise Violation(*_SEEN_FAILING[key])
-    failures, info, error = _run_case(sub, spec, facts)
-    try:
-        _raise_first(sub, spec, failures)
-    except Violation as vio:
-        if len(_SEEN_FAILING) > 50000:
-            _SEEN_FAILING.clear()
-        _SEEN_FAILING[key] = (vio.clause, vio.detail)
-        raise
+    info: dict = {}
+    error = None
+    failure = _SEEN_FAILING.get(key)
+    if failure is None:
+        failures, info, error = _run_case(sub, spec, facts)
+        failure = _pick_failure(sub, spec, failures)
+        if failure is not None:
+            if len(_SEEN_FAILING) > 50000:
+                _SEEN_FAILING.clear()
+            _SEEN_FAILING[key] = failure
+    if failure is not None:
+        raise Violation(*failure)       # the only raise: Hypothesis tells failures apart by the raising line
     classes = list(classes) + list(info.get("classes") or [])
     if error is not None:
         classes.append(f"raised_consistently_{error['type']}")
@@ -703,7 +705,8 @@ def _region_unique_protocluster_order(sub, spec, clause, detail) -> bool:
                                                   "regions[].unique_protocluster_numbers")
     if clause == "results_json_differs":
         return ((kind == "value" and bool(_REGION_PROTOCLUSTER_FIELD.match(where)))
-                or (kind == "list_order" and where == "records[].areas[].candidates[].protoclusters"))
+                or (kind == "list_order" and where == "records[].areas[].candidates[].protoclusters")
+                or (kind == "value" and where == "records[].areas[].candidates[].protoclusters[]"))
     return False
 
 
